@@ -180,13 +180,13 @@ contract(MC + ".__init__", params={"initial_constraint": Opt(Statement), "statem
 TWO = {"st1": Statement, "st2": Statement}
 BOTH_ST = ["has_class(st1, 'Statement')", "has_class(st2, 'Statement')"]
 contract(ASS + "._statements_have_same_tokens", params=TWO, returns=Bool, requires=BOTH_ST,
-    ensures=["result == (st1._st_property == st2._st_property and some(st1._st_type) == some(st2._st_type))"], raises=[], props=["C02", "C09"])
+    ensures=["result == (st1._st_property == st2._st_property and some(st1._st_type) == some(st2._st_type))"], raises=[], props=["C02", "C09", "C03", "C12"])
 contract(ASS + "._is_a_literal", params={"node_kind_str": Kind}, returns=Bool,
-    ensures=["result == (not node_kind_str.startswith('%') and node_kind_str != 'IRI' and node_kind_str != 'BNode')"], raises=[], props=["C02"])
+    ensures=["result == (not node_kind_str.startswith('%') and node_kind_str != 'IRI' and node_kind_str != 'BNode')"], raises=[], props=["C02", "C03", "C12"])
 contract(ASS + "._statements_have_same_prop_and_are_node_type", params={"original_sentence": Statement, "target_sentence": Statement}, returns=Bool,
     requires=["has_class(original_sentence, 'Statement')", "has_class(target_sentence, 'Statement')"],
     ensures=["result == ((some(target_sentence._st_type) == 'IRI' or some(target_sentence._st_type) == 'BNode' or some(target_sentence._st_type).startswith('%'))"
-             " and original_sentence._st_property == target_sentence._st_property)"], raises=[], props=["C02"])
+             " and original_sentence._st_property == target_sentence._st_property)"], raises=[], props=["C02", "C03", "C12"])
 
 # ---- MergeableConstraints: views and ordering -------------------------------------------------------------------------------
 contract(MC + ".constraints", params={}, yields=Statement, ensures=["list_eq(result, self._constraints)"], raises=[],
@@ -222,7 +222,7 @@ contract(ASS + "._is_a_group_of_statements_with_useless_positive_closure", param
     loops={0: {"invariant": ["implies(len(%s) == 2, one_if_there_is_a_single_positive_closure == ite(_i0 == 0, -1, ite(_i0 == 1, ite(%s, 1, -1), ite(%s != %s, 1, -1))))"
                              % (GC, PLUS(GC + "[0]"), PLUS(GC + "[0]"), PLUS(GC + "[1]")),
                              "_n0 == len(%s)" % GC, "list_eq(_seq0, %s)" % GC]}},
-    props=["C03"], note="two members, (almost) equal frequency, exactly one of them is the positive closure")
+    props=["C03", "C12", "C02"], note="two members, (almost) equal frequency, exactly one of them is the positive closure")
 G2 = "group_of_candidate_statements"
 contract(ASS + "._statement_for_a_group_with_a_useless_positive_closure", params={G2: MCT}, returns=Statement,
     requires=MEMBERS_OK(G2) + ["exists(Int, lambda j: 0 <= j and j < len(%s._constraints) and not %s)" % (G2, PLUS(G2 + "._constraints[j]"))],
